@@ -416,98 +416,163 @@ func ruleC04R44(r *Run) {
 	r.Floor("newRepeat sites of rejecting loops", n, 5)
 }
 
-// replayNeutralUse: the loaded value only decides an If whose true edge (the influenced path) draws
-// exactly one zero-width word inside its own group and yields `false` as the function result.
+// replayNeutralUse: the loaded value only decides a branch whose "forced" edge draws exactly one
+// zero-width word inside its own kept group and makes more() return false, while the other edge
+// flips the ordinary coin. Works on (*repeat).more itself or on a helper extracted from it.
 func replayNeutralUse(r *Run, fn *ssa.Function, ld *ssa.UnOp) (bool, string) {
 	p := r.P
-	if p.fnName(fn) != "(*repeat).more" {
+	if p.hostName(fn) != "(*repeat).more" {
 		return false, "read outside (*repeat).more"
 	}
-	if ld.Referrers() == nil {
+	// follow negations to the branch
+	type br struct {
+		iff      *ssa.If
+		forcedOn int // successor index taken when the loaded flag is true
+	}
+	var brs []br
+	var follow func(v ssa.Value, neg bool, d int) string
+	follow = func(v ssa.Value, neg bool, d int) string {
+		if v.Referrers() == nil || d > 3 {
+			return ""
+		}
+		for _, ref := range *v.Referrers() {
+			switch x := ref.(type) {
+			case *ssa.DebugRef:
+			case *ssa.If:
+				idx := 0
+				if neg {
+					idx = 1
+				}
+				brs = append(brs, br{x, idx})
+			case *ssa.UnOp:
+				if x.Op != token.NOT {
+					return "flows into " + p.expr(x)
+				}
+				if why := follow(x, !neg, d+1); why != "" {
+					return why
+				}
+			default:
+				return "flows into " + strings.TrimSpace(fmt.Sprintf("%T", ref)) + " at " + p.pos(ref.Pos()) + " (" + p.expr(valueOf(ref)) + ") rather than selecting the forced-stop path"
+			}
+		}
+		return ""
+	}
+	if why := follow(ld, false, 0); why != "" {
+		return false, why
+	}
+	if len(brs) == 0 {
 		return true, "unused"
 	}
-	for _, ref := range *ld.Referrers() {
-		if _, dbg := ref.(*ssa.DebugRef); dbg {
-			continue
-		}
-		iff, ok := ref.(*ssa.If)
+	isStreamCall := func(in ssa.Instruction) (string, *ssa.Call) {
+		c, ok := in.(*ssa.Call)
 		if !ok {
-			return false, "flows into " + strings.TrimSpace(fmt.Sprintf("%T", ref)) + " at " + p.pos(ref.Pos()) + " (" + p.expr(valueOf(ref)) + ") rather than selecting the forced-stop path"
+			return "", nil
 		}
-		tb, fb := iff.Block().Succs[0], iff.Block().Succs[1]
-		if len(tb.Succs) != 1 {
-			return false, "the forced-stop path branches"
+		k := p.calleeKey(c.Common())
+		if strings.HasPrefix(k, "invoke:bitStream.") || k == "flipBiasedCoin" || k == "genFloat01" || k == "genGeom" || strings.HasPrefix(k, "genUint") {
+			return k, c
 		}
-		merge := tb.Succs[0]
-		// calls on the forced path
-		var keys []string
-		var draw, begin, end *ssa.Call
-		for _, in := range tb.Instrs {
-			c, ok := in.(*ssa.Call)
-			if !ok {
-				continue
+		return "", nil
+	}
+	for _, b := range brs {
+		forced := b.iff.Block().Succs[b.forcedOn]
+		other := b.iff.Block().Succs[1-b.forcedOn]
+		nPaths := 0
+		why := ""
+		okEnum := p.pathsFrom(forced, 200, func(cp *cfgPath, back bool) {
+			if cp.infeasible || why != "" {
+				return
 			}
-			k := p.calleeKey(c.Common())
-			keys = append(keys, k)
-			switch k {
-			case "invoke:bitStream.drawBits":
-				draw = c
-			case "invoke:bitStream.beginGroup":
-				begin = c
-			case "invoke:bitStream.endGroup":
-				end = c
+			last := cp.blocks[len(cp.blocks)-1]
+			ret, isRet := last.Instrs[len(last.Instrs)-1].(*ssa.Return)
+			if !isRet {
+				return // panics are not stops
 			}
-		}
-		if len(keys) != 3 || draw == nil || begin == nil || end == nil {
-			return false, "the forced-stop path makes the calls " + strings.Join(keys, ", ") + " (expected exactly beginGroup, drawBits(0), endGroup)"
-		}
-		if w, ok := constInt(p.resolve(draw.Common().Args[0])); !ok || w != 0 {
-			return false, "the forced-stop path draws " + p.expr(draw.Common().Args[0]) + " bits instead of a zero-width word"
-		}
-		if p.resolve(end.Common().Args[0]) != ssa.Value(begin) {
-			return false, "the forced-stop word is not enclosed in its own group"
-		}
-		if d, ok := constBool(p.resolve(end.Common().Args[1])); !ok || d {
-			return false, "the forced-stop group is discarded"
-		}
-		if !(dominates(begin, draw) && dominates(draw, end)) {
-			return false, "begin/draw/end of the forced stop are out of order"
-		}
-		// the result on this path is false
-		okRes := false
-		for _, in := range merge.Instrs {
-			ph, ok := in.(*ssa.Phi)
-			if !ok {
-				break
-			}
-			for i, pr := range merge.Preds {
-				if pr == tb {
-					if b, isC := constBool(p.resolve(ph.Edges[i])); isC && !b {
-						// this phi must be the value returned
-						for _, ret := range returnsOf(fn) {
-							if p.resolve(p.res(ret, 0)) == ssa.Value(ph) {
-								okRes = true
-							}
-						}
+			nPaths++
+			var keys []string
+			var calls []*ssa.Call
+			for _, blk := range cp.blocks {
+				for _, in := range blk.Instrs {
+					if k, c := isStreamCall(in); k != "" {
+						keys = append(keys, k)
+						calls = append(calls, c)
 					}
 				}
 			}
+			if len(calls) < 3 || keys[0] != "invoke:bitStream.beginGroup" || keys[1] != "invoke:bitStream.drawBits" || keys[2] != "invoke:bitStream.endGroup" {
+				why = "the forced-stop path makes the bitstream calls " + strings.Join(keys, ", ") + " (expected beginGroup, drawBits(0), endGroup first)"
+				return
+			}
+			if w, ok := constInt(p.resolve(calls[1].Common().Args[0])); !ok || w != 0 {
+				why = "the forced-stop path draws " + p.expr(calls[1].Common().Args[0]) + " bits instead of a zero-width word"
+				return
+			}
+			if p.resolve(calls[2].Common().Args[0]) != ssa.Value(calls[0]) {
+				why = "the forced-stop word is not enclosed in its own group"
+				return
+			}
+			if d, ok := constBool(p.resolve(calls[2].Common().Args[1])); !ok || d {
+				why = "the forced-stop group is discarded"
+				return
+			}
+			for i := 3; i < len(calls); i++ {
+				// afterwards only the closing of the repeat group, as on an ordinary stop
+				d, isC := constBool(p.resolve(calls[i].Common().Args[len(calls[i].Common().Args)-1]))
+				if keys[i] != "invoke:bitStream.endGroup" || !isC || d {
+					why = "after the zero-width word the forced-stop path also calls " + keys[i]
+					return
+				}
+			}
+			if v, isC := constBool(cp.onPath(p.res(ret, 0))); !isC || v {
+				why = "the forced-stop path does not yield false (" + p.expr(cp.onPath(p.res(ret, 0))) + ")"
+				return
+			}
+		})
+		if !okEnum {
+			return false, "too many paths"
 		}
-		if !okRes {
-			return false, "the forced-stop path does not make more() return false"
+		if why != "" {
+			return false, why
 		}
-		// the other edge is the ordinary coin
-		okCoin := false
-		for _, in := range fb.Instrs {
-			if c, ok := in.(*ssa.Call); ok && p.calleeKey(c.Common()) == "flipBiasedCoin" {
-				okCoin = true
+		if nPaths == 0 {
+			return false, "the forced-stop path never returns"
+		}
+		// the helper's result is what more() returns
+		if host := p.host(fn); host != fn {
+			okRet := false
+			for _, hret := range returnsOf(host) {
+				v := p.res(hret, 0)
+				for i := 0; i < 4; i++ {
+					if c, ok := v.(*ssa.Call); ok {
+						if h := transparentCallee(c); h != nil && p.within(fn, h) {
+							okRet = true
+						}
+					}
+					nv := p.resolve(v)
+					if nv == v {
+						break
+					}
+					v = nv
+				}
+			}
+			if !okRet {
+				return false, "the value computed by " + p.fnName(fn) + " is not what more() returns"
 			}
 		}
-		if !okCoin {
+		// the other edge flips the ordinary coin
+		if len(other.Instrs) == 0 {
+			return false, "empty uninfluenced edge"
+		}
+		isCoin := func(in ssa.Instruction) bool {
+			c, ok := in.(*ssa.Call)
+			return ok && p.calleeKey(c.Common()) == "flipBiasedCoin"
+		}
+		first := other.Instrs[0]
+		if !isCoin(first) && escapesWithout(first, isCoin, false) != nil {
 			return false, "the uninfluenced edge does not flip the ordinary coin"
 		}
 	}
-	return true, "its true edge records one zero-width word in its own kept group and returns false; the other edge flips the ordinary coin, which reads a zero word as false for pContinue < 1"
+	return true, "its forced edge records one zero-width word in its own kept group and yields false; the other edge flips the ordinary coin, which reads a zero word as false for pContinue < 1"
 }
 
 func valueOf(in ssa.Instruction) ssa.Value {
@@ -746,7 +811,7 @@ func ruleC04R5(r *Run) {
 		}
 		// g is groups[i]
 		okG := false
-		for _, b := range fn.Blocks {
+		for _, b := range p.body(fn) {
 			for _, in := range b.Instrs {
 				if st, ok := in.(*ssa.Store); ok && p.expr(st.Addr) == "&alloc(g)" && p.expr(st.Val) == "$rec.groups[$i]" {
 					okG = true
@@ -759,7 +824,7 @@ func ruleC04R5(r *Run) {
 		r.Check("(*recordedBits).removeGroup#slice", fn.Pos(), okData && okG, "deletes exactly data[g.begin:g.end] of g = groups[i]", "removeGroup does not delete exactly data[g.begin:g.end] of groups[i]")
 		// rebasing stores subtract n
 		n := 0
-		for _, b := range fn.Blocks {
+		for _, b := range p.body(fn) {
 			for _, in := range b.Instrs {
 				st, ok := in.(*ssa.Store)
 				if !ok {
@@ -886,7 +951,7 @@ func ruleC04R48(r *Run) {
 	}
 	// skipped must imply "stream position unchanged"
 	okPos := false
-	for _, b := range cl.Blocks {
+	for _, b := range p.body(cl) {
 		for _, in := range b.Instrs {
 			if st, ok := in.(*ssa.Store); ok && p.expr(st.Addr) == "^skipped" {
 				// path-sensitively: every way for the stored value to be true passes the position comparison
